@@ -480,6 +480,19 @@ func (s *seqCase) bulkOutcome(keys []int, allowPanic bool) (string, map[int]int,
 		}
 		return pairsStr("M", m), m, nil, false
 	case x < 88 || !allowPanic || s.inQueue:
+		if s.r.chance(45) {
+			// an error together with a (partial) result that also volunteers keys: nothing of it may be cached
+			m := map[int]int{}
+			for _, k := range keys {
+				if s.r.chance(50) {
+					m[k] = s.val()
+				}
+			}
+			for i := 0; i < 1+s.r.intn(2); i++ {
+				m[s.r.intn(s.nkeys+1)] = s.val()
+			}
+			return "E", m, errLoader, false
+		}
 		return "E", nil, errLoader, false
 	default:
 		return "P", nil, nil, true
